@@ -14,6 +14,7 @@ core.import_scoda()
 from scoda.elements.bar import Bar  # noqa: E402
 from scoda.elements.composition import Composition  # noqa: E402
 from scoda.sequences.sequence import Sequence  # noqa: E402
+from scoda.misc import util as U  # noqa: E402
 from scoda.tokenisation.notelike_tokenisation import MultiTrackLargeVocabularyNotelikeTokeniser as Tokeniser  # noqa: E402
 
 TMPDIR = None
@@ -25,6 +26,13 @@ FAMILIES = [
     [P.notes_to_abs([(0, 60, 6, 18, 80), (0, 67, 72, 90, 64), (0, 65, 100, 109, 50)], [P.ts(0, 3, 4), P.ts(72, 4, 4), P.ks(0, "G")])],
     # with an empty track and a trailing rest
     [P.notes_to_abs([(0, 72, 0, 12, 100), (0, 72, 12, 48, 100)], [P.ts(0, 4, 4)], dur=150), [], P.notes_to_abs([(0, 50, 30, 42, 30)], [])],
+    # long beats: 3/2 then 2/1, material across the bar lines (144, 336)
+    [P.notes_to_abs([(0, 60, 0, 24, 80), (0, 62, 150, 174, 70), (0, 64, 300, 324, 60), (0, 65, 340, 364, 60)], [P.ts(0, 3, 2), P.ts(144, 2, 1)])],
+    # short beats: 5/8 then 7/16, bars of 60 and 42 ticks, second track shorter
+    [P.notes_to_abs([(0, 60, 6, 18, 80), (0, 67, 54, 66, 64), (0, 65, 100, 112, 50), (0, 65, 130, 139, 50)], [P.ts(0, 5, 8), P.ts(60, 7, 16)]),
+     P.notes_to_abs([(0, 40, 0, 36, 90)], [])],
+    # 2/2 and 12/8
+    [P.notes_to_abs([(0, 55, 10, 34, 80), (0, 57, 90, 126, 70), (0, 59, 200, 218, 60)], [P.ts(0, 2, 2), P.ts(96, 12, 8)], dur=250)],
 ]
 OTHER = P.notes_to_abs([(0, 40, 4, 16, 64)], [])
 
@@ -52,6 +60,13 @@ def apply(world, op, tokinfo):
         [s.quantise() for s in world]
     elif op == "quantise_note_lengths":
         [s.quantise_note_lengths() for s in world]
+    elif op == "quantise_helper_grid":
+        steps = U.get_default_step_sizes(upper_bound_shift=1, lower_bound_shift=1)
+        [s.quantise(steps) for s in world]
+    elif op == "note_lengths_helper_grid":
+        normal = U.get_note_durations(4, 8)
+        values = normal + U.get_tuplet_durations(normal, 3, 2) + U.get_dotted_note_durations(normal, 2)
+        [s.quantise_note_lengths(values) for s in world]
     elif op == "normalise":
         [s.normalise() for s in world]
     elif op == "quantise_and_normalise":
@@ -90,7 +105,10 @@ def apply(world, op, tokinfo):
         for s in world:
             pieces = s.split([96])
             first = pieces[0] if pieces else Sequence()
-            out.append(Bar(first, 4, 4).sequence)
+            sig = [m for m in first.rel._messages if m.numerator is not None]
+            n, d = (sig[0].numerator, sig[0].denominator) if sig else (4, 4)
+            first = first.split([n * 96 // d])[0] if sig else first
+            out.append(Bar(first, n, d).sequence)
         return out
     elif op in ("bars_roundtrip", "bars_roundtrip_requantise"):
         bars = Sequence.sequences_split_bars(world, 0, quantise_note_lengths=(op == "bars_roundtrip_requantise"))
@@ -193,9 +211,9 @@ def run(ctx):
     samples = [{"family": o["case"]["family"], "history": o["case"]["ops"], "step": o["op"], "kinds": o["kinds"],
                 "tokenKinds": o["tokenKinds"]} for o in obs[5::max(1, len(obs) // 3)]][:3]
     return ctx.finish(list(zip(obs, ver)),
-                      rule="behaviours of TickTypes.tla: every history of <=2 (thorough 3) of its 21 operations on 3 integer-tick input "
+                      rule="behaviours of TickTypes.tla: every history of <=2 (thorough 3) of its 23 operations on 6 integer-tick input "
                            "families (tracks of unequal length, bars needing padding, a note cut by a bar line, an empty track, "
-                           "signature changes) + seeded random histories up to length 8; one line per executed step; non-trivial "
+                           "signature changes incl. beats longer and shorter than a quarter: 3/2, 2/1, 2/2, 5/8, 7/16, 12/8) + seeded random histories up to length 8; one line per executed step; non-trivial "
                            "= distinct (family, history, step) that did not end in an exception",
                       nontrivial=nontrivial, samples=samples,
                       extra_cov={"steps_with_tokens": tok, "steps_ending_in_exception": raised, "exceptions_by_kind": dict(rz.most_common(6))})
